@@ -14,7 +14,7 @@ ASSUME = [common.TRUSTED, "a call that does not return within the per-call deadl
           "methods with parameters are exercised by the other checks' accessor projections, not here"]
 META = {
     "level": "exploration",
-    "technique": "loop variant / position bounds of the modelled mapping pair loop model-checked by TLC (MC_Struct: LoopBounded, Framing); TLC-computed well-formed encodings mutated at every offset and cut, seeded random inputs and all 16-bit codes executed against the real library under recover()+deadline; outcomes validated by TLC",
+    "technique": "loop variant / position bounds of the modelled mapping pair loop model-checked by TLC (MC_Struct: LoopBounded, Framing); TLC-computed well-formed encodings mutated at every offset and cut, seeded random inputs and all 16-bit codes executed against the real library under recover()+deadline; outcomes validated by TLC; families of related accepted values (prefix / suffix / one-element variants, computed by TLC) whose two-value methods are called for every ordered pair",
     "text": ("The decisive observation is dynamic, so the level is exploration. TLC supplies the well-formed encodings of every structure (so "
              "mutants reach deep branches: key types, offline flag, counts of 16) and judges that every sweep ran and produced no panic/hang in "
              "the parser or in any method of an accepted value; the design-level termination/bounds argument is model-checked for the mapping "
